@@ -33,7 +33,7 @@ func runC04(l *core.Ledger) {
 	l.Rule("C04-H2", "the per-connection mutex is a local of NodeStream whose address flows only into ServerCtx.mut and Lock/Unlock; releases = {deferred unlock at exit, once.Do(mut.Unlock) in Release}; a fresh sync.Once per handler start")
 	l.Rule("C04-H3", "every registered handler closure (generated files and server template) defers ctx.Release() before calling the implementation")
 	l.Rule("C04-H4", "server SendMsg is called only by the reply-pump goroutine started once in NodeStream; SendMessage is a select on {send, ctx.Done()}")
-	l.Rule("C04-H5", "replies are routed by the echoed message id (C05-M5 re-run)")
+	l.Rule("C04-H5", "replies are routed by the echoed message id (C05-M5 re-run), read from a request envelope that is the handler's own (C03-F5 re-run: a fresh Message per handler start)")
 
 	sl := findServerLoop(l, r, "C04-H1")
 	if sl == nil {
@@ -200,4 +200,7 @@ func runC04(l *core.Ledger) {
 	}
 	// H5
 	l.With(map[string]string{"C05-M5": "C04-H5"}, func() { c05M5(l, r) })
+	// the id is echoed from the handler's own request envelope: one fresh Message per
+	// handler start, also for a handler that released early and replies later
+	l.With(map[string]string{"C03-F5": "C04-H5"}, func() { c03F5(l, sl) })
 }
